@@ -406,12 +406,21 @@ def method_design(idx, shape, types):
         responses = [tagged, resp]
     http["responses"] = responses
     m = {"name": mname, "http": http}
+    # every other method with several attributes declares its payload / result as a NAMED user type (Payload(T)) instead
+    # of an inline object: the transport then derives its body types from a type that also exists on its own
+    named = idx % 2 == 0
     if pwhole:
         m["payload"] = {"type": whole_tref(pa[0])}
+    elif pattrs and named and len(pattrs) >= 2:
+        types.append({"name": "M%dPay" % idx, "kind": "object", "attrs": pattrs})
+        m["payload"] = {"type": {"kind": "user", "ref": "M%dPay" % idx}}
     elif pattrs:
         m["payload"] = {"attrs": pattrs}
     if rwhole:
         m["result"] = {"type": whole_tref(ra[0])}
+    elif rattrs and named and len(rattrs) >= 2:
+        types.append({"name": "M%dRes" % idx, "kind": "object", "attrs": rattrs})
+        m["result"] = {"type": {"kind": "user", "ref": "M%dRes" % idx}}
     elif rattrs:
         m["result"] = {"attrs": rattrs}
     return m
@@ -517,7 +526,7 @@ class Pipeline:
 
     # ---- compile the generated packages; isolate methods whose generated code does not type-check
     def _compile_gen(self, i):
-        p = subprocess.run(["go", "build", "-gcflags=-e", "./d%d/gen/..." % i], cwd=self.root, env=self.ctx.goenv(),
+        p = subprocess.run(["go", "build", "-gcflags=-e", "./d%d/gen/..." % i], cwd=self.root, env=self.ctx.goenv(gen=True),
                            stdout=subprocess.PIPE, stderr=subprocess.STDOUT, text=True, timeout=900)
         return i, p.returncode, p.stdout
 
@@ -672,7 +681,7 @@ class Pipeline:
 
     def _glue_one(self, i, services):
         d = os.path.join(self.root, "d%d" % i)
-        p = subprocess.run([self.mkrunner, "-dir", d, "-services", ",".join(services)], cwd=self.root, env=self.ctx.goenv(),
+        p = subprocess.run([self.mkrunner, "-dir", d, "-services", ",".join(services)], cwd=self.root, env=self.ctx.goenv(gen=True),
                            stdout=subprocess.PIPE, stderr=subprocess.PIPE, text=True, timeout=300)
         return i, p.returncode, p.stderr[-3000:]
 
@@ -691,7 +700,7 @@ class Pipeline:
         def build_one(i):
             out = os.path.join(bindir, "run%d" % i)
             cmd = ["go", "build"] + (["-race"] if race else []) + ["-o", out, "./d%d/runner" % i]
-            p = subprocess.run(cmd, cwd=self.root, env=self.ctx.goenv(), stdout=subprocess.PIPE, stderr=subprocess.STDOUT, text=True, timeout=1800)
+            p = subprocess.run(cmd, cwd=self.root, env=self.ctx.goenv(gen=True), stdout=subprocess.PIPE, stderr=subprocess.STDOUT, text=True, timeout=1800)
             return i, p.returncode, p.stdout[-3000:], out
         with cf.ThreadPoolExecutor(max_workers=8) as ex:
             for i, rc, out, binp in ex.map(build_one, todo):
